@@ -32,7 +32,8 @@ Record script := { greeting : step; replies : list step }.
 
 Inductive event :=
 | W (bytes : list N)   (* a write/sendmsg that succeeded, with its payload *)
-| R (bytes : list N).  (* a read that returned these bytes ([] = end of file) *)
+| R (bytes : list N)   (* a read that returned these bytes *)
+| E.                   (* a read that returned 0 bytes (end of file) or an error *)
 
 Record sock := {
   rq : list (list N);     (* what read() will return next, piece by piece *)
@@ -75,7 +76,7 @@ Definition sock_read (s : sock) : rd * sock :=
   match rq s with
   | p :: q => (RData p, {| rq := q; closed := closed s; future := future s; log := log s ++ [R p] |})
   | [] => if closed s
-          then (REof, {| rq := []; closed := closed s; future := future s; log := log s ++ [R []] |})
+          then (REof, {| rq := []; closed := closed s; future := future s; log := log s ++ [E] |})
           else (RBlock, s)
   end.
 
@@ -236,9 +237,11 @@ Definition connect_to_bus (uid : N) (with_unix_fd : bool) (scr : script) : conn_
 
 (* ------------------------------------------------------------------ observables *)
 Fixpoint sent (l : list event) : list N :=
-  match l with [] => [] | W b :: t => b ++ sent t | R _ :: t => sent t end.
-Fixpoint received (l : list event) : list N :=
-  match l with [] => [] | R b :: t => b ++ received t | W _ :: t => received t end.
+  match l with [] => [] | W b :: t => b ++ sent t | _ :: t => sent t end.
+(* the pieces obtained by read(), in order *)
+Fixpoint reads (l : list event) : list (list N) :=
+  match l with [] => [] | R b :: t => b :: reads t | _ :: t => reads t end.
+Definition received (l : list event) : list N := concat (reads l).
 (* the conversation as (what was written, everything read before the next write) *)
 Fixpoint segs (cur : option (list N * list N)) (l : list event) : list (list N * list N) :=
   match l with
@@ -248,6 +251,7 @@ Fixpoint segs (cur : option (list N * list N)) (l : list event) : list (list N *
                 | Some (x, r) => segs (Some (x, r ++ b)) t
                 | None => segs None t
                 end
+  | E :: t => segs cur t
   end.
 Definition segments (l : list event) : list (list N * list N) := segs None l.
 Definition unread (s : sock) : list N := concat (rq s).
